@@ -2,14 +2,14 @@
 // poulpy-hal/src/layouts/{vec_znx_dft,vec_znx_big,vmp_pmat,svp_ppol}.rs: `pub struct VecZnxDft<D, B> { pub data: D, pub n, pub cols, pub size, pub max_size, _phantom }` etc.
 // The byte buffer is kept only as a type parameter; `deps` (ghost) maps (column, limb) to the dependency set of that limb, for every limb of the
 // CAPACITY (limbs beyond `size` keep what they held).
-pub struct VecZnxDft<D, BE> { pub data: D, pub n: usize, pub cols: usize, pub size: usize, pub max_size: usize, pub deps: Ghost<Map<(int, int), Set<Src>>>, pub _phantom: core::marker::PhantomData<BE> }
-pub struct VecZnxBig<D, BE> { pub data: D, pub n: usize, pub cols: usize, pub size: usize, pub max_size: usize, pub deps: Ghost<Map<(int, int), Set<Src>>>, pub _phantom: core::marker::PhantomData<BE> }
+pub struct VecZnxDft<D, BE> { pub data: D, pub n: usize, pub cols: usize, pub size: usize, pub max_size: usize, pub deps: Ghost<Map<(int, int), ISet<Src>>>, pub _phantom: core::marker::PhantomData<BE> }
+pub struct VecZnxBig<D, BE> { pub data: D, pub n: usize, pub cols: usize, pub size: usize, pub max_size: usize, pub deps: Ghost<Map<(int, int), ISet<Src>>>, pub _phantom: core::marker::PhantomData<BE> }
 // prepared (read-only) operands: one dependency set for the whole object
-pub struct VmpPMat<D, BE> { pub data: D, pub n: usize, pub rows: usize, pub cols_in: usize, pub cols_out: usize, pub size: usize, pub dep: Ghost<Set<Src>>, pub _phantom: core::marker::PhantomData<BE> }
-pub struct SvpPPol<D, BE> { pub data: D, pub n: usize, pub cols: usize, pub deps: Ghost<Map<int, Set<Src>>>, pub _phantom: core::marker::PhantomData<BE> }
+pub struct VmpPMat<D, BE> { pub data: D, pub n: usize, pub rows: usize, pub cols_in: usize, pub cols_out: usize, pub size: usize, pub dep: Ghost<ISet<Src>>, pub _phantom: core::marker::PhantomData<BE> }
+pub struct SvpPPol<D, BE> { pub data: D, pub n: usize, pub cols: usize, pub deps: Ghost<Map<int, ISet<Src>>>, pub _phantom: core::marker::PhantomData<BE> }
 
 impl<D, BE> VecZnxDft<D, BE> {
-    pub open spec fn dep(&self, i: int, j: int) -> Set<Src> { self.deps@[(i, j)] }
+    pub open spec fn dep(&self, i: int, j: int) -> ISet<Src> { self.deps@[(i, j)] }
     pub fn n(&self) -> (r: usize) ensures r == self.n { self.n }
     pub fn cols(&self) -> (r: usize) ensures r == self.cols { self.cols }
     pub fn size(&self) -> (r: usize) ensures r == self.size { self.size }
@@ -23,11 +23,11 @@ impl<D, BE> VecZnxDft<D, BE> {
     #[verifier::external_body]
     pub fn zero(&mut self)
         ensures final(self).size == old(self).size, final(self).n == old(self).n, final(self).cols == old(self).cols, final(self).max_size == old(self).max_size,
-            forall|i: int, j: int| #[trigger] final(self).dep(i, j) == Set::<Src>::empty()
+            forall|i: int, j: int| #[trigger] final(self).dep(i, j) == ISet::<Src>::empty()
     { unimplemented!() }
 }
 impl<D, BE> VecZnxBig<D, BE> {
-    pub open spec fn dep(&self, i: int, j: int) -> Set<Src> { self.deps@[(i, j)] }
+    pub open spec fn dep(&self, i: int, j: int) -> ISet<Src> { self.deps@[(i, j)] }
     pub fn n(&self) -> (r: usize) ensures r == self.n { self.n }
     pub fn cols(&self) -> (r: usize) ensures r == self.cols { self.cols }
     pub fn size(&self) -> (r: usize) ensures r == self.size { self.size }
@@ -35,7 +35,7 @@ impl<D, BE> VecZnxBig<D, BE> {
     #[verifier::external_body]
     pub fn zero(&mut self)
         ensures final(self).size == old(self).size, final(self).n == old(self).n, final(self).cols == old(self).cols, final(self).max_size == old(self).max_size,
-            forall|i: int, j: int| #[trigger] final(self).dep(i, j) == Set::<Src>::empty()
+            forall|i: int, j: int| #[trigger] final(self).dep(i, j) == ISet::<Src>::empty()
     { unimplemented!() }
 }
 impl<D, BE> VmpPMat<D, BE> {
